@@ -1087,6 +1087,220 @@ class NestGen:
 		return '\n'.join(lines) + '\n'
 
 
+# ---------------------------------------------------------------------------------------------
+# pairs of user identifiers that can MEET in one comparison of the transpiler, and renamings that relate the two spellings
+
+
+def meeting_pairs(source: str) -> list[tuple[str, str, str]]:
+	"""(a, b, kind): two different identifiers the program binds whose names tranp may hold against each other —
+	`outer-var/block-var` (a variable or parameter of the function body x a variable first assigned inside a nested flow block),
+	`loop-var/outer-var`, `lambda-param/captured`, `closure-param/captured`, `param/local`, `function/local`, `class/member`,
+	`member/member`. Read off the CPython ast (independent of tranp)."""
+	tree = ast.parse(source)
+	out: list[tuple[str, str, str]] = []
+	seen: set[tuple[str, str, str]] = set()
+
+	def put(a: str, b: str, kind: str) -> None:
+		if a != b and (a, b, kind) not in seen:
+			seen.add((a, b, kind))
+			out.append((a, b, kind))
+
+	def names_of(t: ast.AST) -> list[str]:
+		return [n.id for n in ast.walk(t) if isinstance(n, ast.Name)]
+
+	def assigned(stmts: list[ast.stmt], nested: bool, top: list[str], inner: list[str], loops: list[str]) -> None:
+		for st in stmts:
+			tgt: list[str] = []
+			if isinstance(st, ast.Assign):
+				tgt = [n for t in st.targets if isinstance(t, (ast.Name, ast.Tuple, ast.List)) for n in names_of(t)]
+			elif isinstance(st, (ast.AnnAssign, ast.AugAssign)) and isinstance(st.target, ast.Name):
+				tgt = [st.target.id]
+			elif isinstance(st, (ast.For, ast.AsyncFor)):
+				loops.extend(names_of(st.target))
+				tgt = names_of(st.target)
+			elif isinstance(st, ast.With):
+				tgt = [n for item in st.items if item.optional_vars is not None for n in names_of(item.optional_vars)]
+			for n in tgt:
+				(inner if nested else top).append(n)
+			for field in ('body', 'orelse', 'finalbody'):
+				sub = getattr(st, field, None)
+				if isinstance(sub, list) and sub and isinstance(sub[0], ast.stmt) and not isinstance(st, (ast.FunctionDef, ast.AsyncFunctionDef, ast.ClassDef)):
+					assigned(sub, True, top, inner, loops)
+			for h in getattr(st, 'handlers', []) or []:
+				if h.name:
+					inner.append(h.name)
+				assigned(h.body, True, top, inner, loops)
+
+	def free_names(body: ast.AST, params: set[str]) -> list[str]:
+		return [n.id for n in ast.walk(body) if isinstance(n, ast.Name) and isinstance(n.ctx, ast.Load) and n.id not in params]
+
+	def visit_fn(fn: ast.FunctionDef | ast.AsyncFunctionDef, outer_vars: list[str]) -> None:
+		params = [a.arg for a in [*fn.args.posonlyargs, *fn.args.args, *fn.args.kwonlyargs] if a.arg not in ('self', 'cls')]
+		top: list[str] = []
+		inner: list[str] = []
+		loops: list[str] = []
+		assigned(fn.body, False, top, inner, loops)
+		mine = [*params, *top]
+		for b in inner:
+			for a in mine:
+				put(a, b, 'outer-var/block-var')
+		for lv in loops:
+			for a in mine:
+				put(lv, a, 'loop-var/outer-var')
+		for pn in params:
+			for lv in [*top, *inner]:
+				put(pn, lv, 'param/local')
+		for lv in [*top, *inner][:6]:
+			put(fn.name, lv, 'function/local')
+		scope_vars = set([*mine, *inner, *outer_vars])
+		for node in ast.walk(fn):
+			if isinstance(node, ast.Lambda):
+				lp = [a.arg for a in node.args.args]
+				for cap in free_names(node.body, set(lp)):
+					if cap in scope_vars:
+						for q in lp:
+							put(q, cap, 'lambda-param/captured')
+		for st in ast.walk(fn):
+			if isinstance(st, (ast.FunctionDef, ast.AsyncFunctionDef)) and st is not fn:
+				cp = [a.arg for a in st.args.args]
+				local_in: list[str] = []
+				assigned(st.body, False, local_in, local_in, local_in)
+				for cap in free_names(st, set([*cp, *local_in])):
+					if cap in scope_vars:
+						for q in cp:
+							put(q, cap, 'closure-param/captured')
+
+	def visit(node: ast.AST) -> None:
+		for child in ast.iter_child_nodes(node):
+			if isinstance(child, (ast.FunctionDef, ast.AsyncFunctionDef)):
+				visit_fn(child, [])
+			elif isinstance(child, ast.ClassDef):
+				members = [st.name for st in child.body if isinstance(st, (ast.FunctionDef, ast.ClassDef)) and not st.name.startswith('__')]
+				members += [st.target.id for st in child.body if isinstance(st, ast.AnnAssign) and isinstance(st.target, ast.Name)]
+				for m in members:
+					put(child.name, m, 'class/member')
+				for i, m in enumerate(members):
+					for m2 in members[i + 1:i + 3]:
+						put(m, m2, 'member/member')
+				visit(child)
+
+	visit(tree)
+	return out
+
+
+PAIR_SHAPES = ('suffix', 'prefix', 'suffix_', 'prefix_', 'infix', 'case', 'joined', 'head', 'tail')
+PAIR_COMBOS = 2 * len(PAIR_SHAPES)   # every shape in both directions
+
+
+def relate(a: str, b: str, shape: str, filler: str) -> str:
+	"""A new spelling for `a` that stands in the given relation to `b`: `b` becomes a proper suffix / prefix of it (with and without
+	an underscore between), an infix, the same word in another case, the two old names joined by an underscore — or the new name is
+	a proper prefix (`head`) / proper suffix (`tail`) of `b`."""
+	us = '_' * min(Reserved.underscore_class(a), 2)
+	core = b.lstrip('_')
+	half = max(1, len(core) // 2)
+	new = {
+		'suffix': filler + core, 'prefix': core + filler, 'suffix_': f'{filler}_{core}', 'prefix_': f'{core}_{filler}',
+		'infix': f'{filler}{core}{filler[::-1]}', 'case': core.swapcase() if core.swapcase() != core else core + core,
+		'joined': f"{a.lstrip('_')}_{core}", 'head': core[:half], 'tail': core[half:].lstrip('_0123456789') or core[:half],
+	}[shape]
+	return us + new
+
+
+def pair_renaming(rng: random.Random, pairs: list[tuple[str, str, str]], domain: dict[str, str], idents: set[str], reserved: Reserved,
+		combo: int) -> tuple[dict[str, str], list[str]]:
+	"""ONE legal renaming that relates, for every kind of meeting pair present, one identifier to its partner in the way `combo`
+	says (shape = combo mod 9, direction = combo div 9: first or second element of the pair is the one renamed). The partners
+	(reference names) keep their spelling in this renaming, so every planted relation holds in r(P)."""
+	shape = PAIR_SHAPES[combo % len(PAIR_SHAPES)]
+	second = (combo // len(PAIR_SHAPES)) % 2 == 1
+	by_kind: dict[str, list[tuple[str, str]]] = {}
+	for a, b, kind in pairs:
+		by_kind.setdefault(kind, []).append((a, b))
+	mapping: dict[str, str] = {}
+	refs: set[str] = set()
+	taken = set(idents)
+	tags: list[str] = []
+	for kind in sorted(by_kind):
+		cands = list(by_kind[kind])
+		rng.shuffle(cands)
+		for a, b in cands:
+			x, y = (b, a) if second else (a, b)
+			if x not in domain or x in mapping or x in refs or y in mapping:
+				continue
+			new = relate(x, y, shape, rng.choice(['sub', 'x', 'n', 'pre', 'q2', 'zz']))
+			if new in taken or new == x or not IDENT_RE.fullmatch(new) or not reserved.fresh_ok(new, x, domain[x]):
+				continue
+			mapping[x] = new
+			refs.add(y)
+			taken.add(new)
+			tags.append(f"{kind}:{shape}:{'second' if second else 'first'}")
+			break
+	return mapping, tags
+
+
+def generate_pairs_program(rng: random.Random, avoid: Any = ()) -> str:
+	"""A program in which user identifiers MEET: an outer variable declared before variables that are first assigned inside nested
+	if / for / while / try blocks, loop variables next to outer variables, lambdas and a closure whose parameters stand beside
+	captured outer variables, a class with several members. All names are ordinary and unrelated; the search relates them."""
+	r = rng
+	words = [w for w in ['total', 'bias', 'gain', 'limit', 'mark', 'level', 'score', 'width', 'ratio', 'bonus', 'carry', 'delta', 'pivot', 'quota', 'amount', 'credit',
+		'margin', 'weight', 'factor', 'stride', 'budget', 'tally', 'surplus', 'yield_of', 'lapse', 'grade', 'thrust', 'ballast'] if w not in avoid]
+	words += [f'name_{i}w' for i in range(16 - len(words))]
+	pool = r.sample(words, 16)
+	fn, ap, cb, cv = r.sample(['calc', 'fold', 'scan', 'tune', 'apply_it', 'run_it', 'mix'], 4)
+	o1, o2, i1, i2, i3, i4, lv, lp, lp2, cl, cp, p1, p2, res, c1, c2 = pool
+	cls = r.choice(['Meter', 'Gauge', 'Ledger'])
+	f1, f2, m1, m2 = r.sample(['reading', 'scale', 'tick', 'reset_to', 'peak', 'floor_of', 'span'], 4)
+	lines = [
+		'from collections.abc import Callable',
+		'',
+		f'def {ap}({cb}: Callable[[int], int], {cv}: int) -> int:',
+		f'\treturn {cb}({cv})',
+		'',
+		f'class {cls}:',
+		f'\t{f1}: int',
+		f'\t{f2}: int',
+		'',
+		'\tdef __init__(self, n: int) -> None:',
+		f'\t\tself.{f1} = n',
+		f'\t\tself.{f2} = n + 1',
+		'',
+		f'\tdef {m1}(self, {c1}: int) -> int:',
+		f'\t\t{c2} = self.{f1} + {c1}',
+		f'\t\tif {c2} > 3:',
+		f'\t\t\t{i4} = {c2} * self.{f2}',
+		f'\t\t\tprint({i4})',
+		f'\t\treturn {c2}',
+		'',
+		f'\tdef {m2}(self) -> int:',
+		f'\t\treturn self.{m1}(self.{f2})',
+		'',
+		f'def {fn}({p1}: bool, {p2}: int) -> int:',
+		f'\t{o1} = {p2} + 1',
+		f'\t{o2} = {o1} * 2',
+	]
+	blocks = [
+		[f'\tif {p1}:', f'\t\t{i1} = {o1} * 2', f'\t\tprint({i1})'],
+		[f'\tfor {lv} in range({o2}):', f'\t\t{i2} = {lv} + {o1}', f'\t\tprint({i2})'],
+		[f'\twhile {o2} > 90:', f'\t\t{i3} = {o2} - 1', f'\t\t{o2} = {i3}'],
+		[f'\t{res} = {ap}(lambda {lp}: {lp} + {o1} + {o2}, {p2})', f'\tprint({res})'],
+		[f'\tprint({ap}(lambda {lp2}: {lp2} * {o2}, 2))'],
+		[f'\tdef {cl}({cp}: int) -> int:', f'\t\treturn {cp} + {o1} + {p2}', f'\tprint({cl}({o2}))'],
+	]
+	must = blocks[:1] + blocks[3:4]
+	rest = [b for b in blocks if b not in must]
+	r.shuffle(rest)
+	chosen = must + rest[:r.randint(2, len(rest))]
+	r.shuffle(chosen)
+	for b in chosen:
+		lines += b
+	lines += [f'\treturn {o1} + {o2}']
+	src = '\n'.join(lines) + '\n'
+	ast.parse(src)
+	return src
+
+
 PLAIN_MEMBERS = ['pairs', 'numbers', 'labels', 'bump', 'title', 'amount', 'entries', 'cells', 'tally', 'caption', 'grow', 'weight', 'marks', 'stamp', 'rows', 'shift_by']
 
 
